@@ -119,6 +119,10 @@ def make_spy(base, ctl):
         _ctl = ctl
 
         def __init__(self, *a, **kw):
+            if getattr(ctl, "fail_init", None) and kw.get("connection") is not None:
+                exc = ctl.fail_init(len(ctl.instances))
+                if exc is not None:
+                    raise exc      # a back end that cannot be set up for this session (its constructor raises)
             super().__init__(*a, **kw)
             ctl.instances.append(self)
 
